@@ -447,6 +447,9 @@ func runInstance(ld *sym.Loaded, spec *Spec, rs *RunSpec, args []int64, known ma
 					if sp.Returns == "zero" {
 						return ex.ZeroResults(fn), true
 					}
+					if sp.Returns == "error" {
+						return ex.NondetError(sp.Input), true
+					}
 					return ex.Input(sp.Input, "int", fn.Signature.Results().At(0).Type()), true
 				}
 			}
